@@ -485,5 +485,7 @@ func c01Huge(w *mon.W, _ int) {
 	}
 	w.Bucket("bitmap=2^31-bits")
 	w.Distinct(gen.Hash64(0x2b31, 2))
-	w.Sample(func() interface{} { return mon.D{"nwords": []int{1<<25 - 1, 1 << 25}, "what": "indexes built by the library, queries around every 1-bit and at the last 200 positions"} })
+	w.Sample(func() interface{} {
+		return mon.D{"nwords": []int{1<<25 - 1, 1 << 25}, "what": "indexes built by the library, queries around every 1-bit and at the last 200 positions"}
+	})
 }
